@@ -216,18 +216,25 @@ def expectedTable (env : Env) (pfx : Str) (cat : List Instance) (lines : List St
   let tbl := cat.flatMap (buildSimple pfx)
   newTable env (lines.filterMap (fun l => tbl.lookup l) ++ kv)
 
-/-- (service, url) of every target of a table dump -/
-def tableTargets (t : Json) : List (Str × Str) :=
+/-- (host, path, service, url) of every target of a table dump -/
+def tableTargets (t : Json) : List (Str × Str × Str × Str) :=
   let arr (j : Json) : List Json := match j with | .arr a => a.toList | _ => []
   (arr t).flatMap (fun h => (arr (field h "routes")).flatMap (fun r => (arr (field r "targets")).map (fun g =>
-    (getStrD g "service", getStrD g "url"))))
+    (getStrD r "host", getStrD r "path", getStrD g "service", getStrD g "url"))))
+
+/-- where a `route add … <src> …` puts its target: lower-cased host, path (independent of `Model/Route`) -/
+def srcKey (src : Str) : Str × Str :=
+  if (S ":").isPrefixOf src then (src, [])
+  else match splitFirst '/' src with
+    | (h, none) => (Fabio.lowerL h, S "/")
+    | (h, some p) => (Fabio.lowerL h, '/' :: p)
 
 /-- **Soundness at an observation point** (a sync point of the history: the watchers have seen the registry state
 `reg` and the table loop has processed what they sent — with or without failing catalog lookups on the way): every
-target of the installed table is either the target of a routing tag of an instance that advertises it and is
-`HealthyAt` in that state, or the target of an operator `route add` of the KV content of that state. Returns the
-offending targets. -/
-def unsoundTargets (pfx : Str) (st : List Str) (strict : Bool) (o : Json) : Except String (List (Str × Str)) := do
+target of the installed table — under the host and path it sits at — is either the target of a routing tag *for that
+prefix* of an instance that advertises it and is `HealthyAt` in that state, or the target of an operator `route add`
+of the KV content of that state. Returns the offending targets. -/
+def unsoundTargets (pfx : Str) (st : List Str) (strict : Bool) (o : Json) : Except String (List (Str × Str × Str × Str)) := do
   let reg := field o "registry"
   let checks ← arrOf checkOf (field reg "checks")
   let cat ← arrOf instOf (field reg "catalog")
@@ -235,8 +242,10 @@ def unsoundTargets (pfx : Str) (st : List Str) (strict : Bool) (o : Json) : Exce
   let env := envOf (field o "oracle")
   let norm (d : Str) : Str := (env.normURL d).getD d
   let healthy := cat.filter (routedSpec checks st strict)
-  let allowedSvc := healthy.flatMap (fun i => (buildSimple pfx i).map (fun ld => (ld.2.service, norm ld.2.dst)))
-  let allowedKV := (kv.filter (fun d => d.cmd == Cmd.add)).map (fun d => (d.service, norm d.dst))
+  let allowedSvc := healthy.flatMap (fun i => (buildSimple pfx i).map (fun ld =>
+    ((srcKey ld.2.src).1, (srcKey ld.2.src).2, ld.2.service, norm ld.2.dst)))
+  let allowedKV := (kv.filter (fun d => d.cmd == Cmd.add)).map (fun d =>
+    ((srcKey d.src).1, (srcKey d.src).2, d.service, norm d.dst))
   return (tableTargets (field o "table")).filter (fun t => !(allowedSvc.contains t || allowedKV.contains t))
 
 /-- `strconv.ParseFloat` as shipped by the harness: `{"pf": {token: "num/den" | "inf" | "-inf" | "nan" | null}}` -/
@@ -298,7 +307,7 @@ def pipelineH : Handler := fun inp impl => do
   let bad ← obs.mapM (unsoundTargets pfx st strict)
   let obsSound := bad.all (·.isEmpty)
   if !obsSound then
-    return ({ model := Json.arr ((bad.flatMap id).map (fun t => Json.arr #[str t.1, str t.2])).toArray,
+    return ({ model := Json.arr ((bad.flatMap id).map (fun t => Json.arr #[str t.1, str t.2.1, str t.2.2.1, str t.2.2.2])).toArray,
               agree := true, spec := false, nontrivial := true,
               tag := "unhealthy-target-after-observation" } : Verdict).toJson
   match composed, expectedTable env pfx cat sLines kv with
